@@ -408,6 +408,22 @@ def history_cases() -> list[dict]:
     return out
 
 
+def size0_specs() -> list[dict]:
+    """stored files whose LAST box uses the implied-size form (size field 0 = to the end of the file):
+    the last mdat (clear video / encrypted audio / encrypted video with sidx) or a trailing free box"""
+    v = dict(timescale=240, durations=[960, 960, 1000], samples_per_segment=[3, 4, 5], payload_size=60)
+    a = dict(timescale=48000, durations=[192000, 192000, 200000], samples_per_segment=[4, 4, 6], payload_size=30, track_id=2)
+    return [
+        {"video": dict(v, size0_last=True, seed=9401),
+         "audio": dict(a, size0_last=True, encrypted=True, subsamples=False, seed=9402), "aligned": False},
+        {"video": dict(v, size0_last="mdat", encrypted=True, iv_size=16, subsamples=True, with_styp=True, with_sidx=True,
+                       with_tfdt=False, traf_order="senc_first", seed=9403),
+         "audio": dict(a, size0_last="free", seed=9404), "aligned": False},
+        {"video": dict(v, size0_last="free", encrypted=True, subsamples=True, base="absolute", seed=9405),
+         "audio": None, "aligned": False},
+    ]
+
+
 def reader_window() -> tuple[int, int]:
     """(buffersize, max_buffers) of the BufferedReader `load_fragment` reads a stored segment
     through – looked up from the code under test so that a changed default is followed"""
@@ -1025,7 +1041,7 @@ def vod_case(t: Track, k: int, ov: dict, addr: str = "number") -> dict:
 
 
 def followed_cases(t: Track, mode: str, ov: dict, addr: str, now: str, start: Optional[str] = None,
-                   limit: int = 3) -> list[dict]:
+                   limit: int = 3, consecutive: int = 0) -> list[dict]:
     """media URLs exactly as the server's own manifest spells them (BaseURL resolution, query string
     kept): fetch hand_made.mpd with the options, expand the SegmentTemplate of the track's
     Representation.  The option vector of the case is read back from the followed URL."""
@@ -1074,6 +1090,8 @@ def followed_cases(t: Track, mode: str, ov: dict, addr: str, now: str, start: Op
                             times.append(cur)
                             cur += int(sn.get("d"))
                     idx = sorted({0, len(times) // 2, max(0, len(times) - 2)})
+                    if consecutive:
+                        idx = list(range(max(0, len(times) - 1 - consecutive), max(0, len(times) - 1)))
                     values = [("$Time$", times[i]) for i in idx if times]
                 else:
                     sn0 = int(tmpl.get("startNumber", "1"))
@@ -1084,7 +1102,9 @@ def followed_cases(t: Track, mode: str, ov: dict, addr: str, now: str, start: Op
                         ts_, d_ = int(tmpl.get("timescale")), int(tmpl.get("duration"))
                         last = sn0 + int((nowdt - ast).total_seconds() * ts_ // d_) - 1
                         values = [("$Number$", n) for n in (last - 1, last - 2, last - 5) if n >= sn0]
-                for var, val in values[:limit]:
+                        if consecutive:
+                            values = [("$Number$", last - 1 - i) for i in range(consecutive) if last - 1 - i >= sn0]
+                for var, val in values[:max(limit, consecutive)]:
                     u = urllib.parse.urlsplit(urllib.parse.urljoin(base, media.replace(var, str(val))))
                     qs = dict(urllib.parse.parse_qsl(u.query, keep_blank_values=True))
                     out.append({"src": t.spec, "mode": mode, "addr": addr, "url": u.path + "?" + u.query, "now": now,
@@ -1127,6 +1147,19 @@ def fixed_cases() -> list[dict]:
                 for ov in ({"drm": "all"}, {"drm": "clearkey"}, {"drm": "playready", "playready__piff": "0", "bugs": "saio"},
                            {"drm": "playready,playready", "playready__version": "1.0"}):
                     cases.append(vod_case(t, k, ov))
+    # files whose last box has size field 0: every segment (the last one is the class), vod both addressings,
+    # and live over more than one loop of the media (the last segment recurs once per loop)
+    for spec in size0_specs():
+        for t in synth_stream(spec):
+            ovs = ([{"drm": "clearkey"}, {"drm": "playready"}, {"drm": "all", "bugs": "saio"}] if t.enc else
+                   [{}, {"events": "ping", "ping__interval": "50"}])
+            for k in range(1, t.nseg + 1):
+                for ov in ovs:
+                    for addr in ("number", "time"):
+                        cases.append(vod_case(t, k, ov, addr))
+            for addr in ("number", "time"):
+                cases += followed_cases(t, "live", ovs[0], addr, "2024-03-01T10:00:07Z", "2024-03-01T09:00:00Z",
+                                        consecutive=t.nseg + 1)
     # numeric / structural boundaries, stream-level defaults; both addressing modes
     bt: list[Track] = []
     for spec in boundary_specs():
@@ -1255,7 +1288,7 @@ def search(ctx, disagreements):
                 return f
     rng = ctx.rng("search")
     tracks = all_tracks(rng, 60 if not ctx.thorough else 200)
-    for spec in fixed_specs() + size_class_specs() + boundary_specs() + override_specs():
+    for spec in fixed_specs() + size_class_specs() + boundary_specs() + override_specs() + size0_specs():
         tracks += synth_stream(spec)
     for c in history_cases() + fixed_cases() + gen_cases(rng, tracks, 2500 if not ctx.thorough else 20000, live_share=.3):
         f = _failing(c)
